@@ -17,7 +17,7 @@ func init() {
 				clStoreCursorsClosed(c)
 				clWorkersSignalDone(c)
 				clSkiplistCursorSession(c)
-				clCollectionWorker(c, "C07.c")
+				clCollectionWorker(c, "C06.d")
 				clTokenPairing(c)
 			})
 			c.Do("C07.d", "L1+L5 winner-only flush, exactly one winner", 10, func() { clDeleteNodeWinner(c); clSoftDeleteTable(c) })
